@@ -23,11 +23,36 @@ def log(*a):
     print(*a, flush=True)
 
 
+_WD = {}
+
+
 def workdir(name):
-    d = os.path.join(WORK, name)
+    """scratch directory of this process for `name` (unique per process so that checks can run concurrently);
+    stale directories of earlier runs are removed"""
+    os.makedirs(WORK, exist_ok=True)
+    now = time.time()
+    for ent in os.listdir(WORK):
+        full = os.path.join(WORK, ent)
+        if ent.startswith(name + "-") or ent.startswith("tlc_"):
+            try:
+                if now - os.path.getmtime(full) > 3 * 3600:
+                    shutil.rmtree(full, ignore_errors=True)
+            except OSError:
+                pass
+    d = os.path.join(WORK, f"{name}-{os.getpid()}")
     shutil.rmtree(d, ignore_errors=True)
     os.makedirs(d, exist_ok=True)
+    _WD[name] = d
     return d
+
+
+def wd_of(name):
+    return _WD.get(name) or workdir(name)
+
+
+def cleanup_workdirs():
+    for d in _WD.values():
+        shutil.rmtree(d, ignore_errors=True)
 
 
 _built = False
@@ -109,7 +134,7 @@ def parse_coverage(out):
 def run_mc(module, cfg, workers=4, timeout=600, coverage=True, name=None, env_extra=None, expect_ok=True, simulate=None, depth=None):
     """Exhaustive TLC run of a bounded instance.  Returns dict(ok, states, transitions, coverage, out)."""
     name = name or module
-    md = os.path.join(WORK, "tlc_" + name)
+    md = os.path.join(WORK, f"tlc_{name}_{os.getpid()}")      # unique per process: checks may run concurrently
     shutil.rmtree(md, ignore_errors=True)
     cmd = _tlc_cmd(workers, md, cfg, module, simulate=simulate, depth=depth)
     if coverage and not simulate:
@@ -150,7 +175,7 @@ def vacuity_guard(res, required_actions):
 
 
 def _trace_one(spec, cfg, trace, idx, env_extra, timeout):
-    md = os.path.join(WORK, f"tlc_trace_{os.path.basename(trace)}_{idx}")
+    md = os.path.join(WORK, f"tlc_trace_{os.path.basename(trace)}_{idx}_{os.getpid()}")
     shutil.rmtree(md, ignore_errors=True)
     cmd = _tlc_cmd(1, md, cfg, spec, extra=["-Dtlc2.tool.queue.IStateQueue=StateDeque", "-Xmx3g"])
     env = dict(os.environ)
@@ -307,6 +332,8 @@ class Result:
             json.dump(ev, f, indent=1, default=str)
         for pth, text in self.violations[:20]:
             log(f"VIOLATION property={self.prop} replay={pth}  {text}")
+        if not self.violations and not os.environ.get("VERIF_KEEP_WORK"):
+            cleanup_workdirs()
         return 1 if self.violations else 0
 
 
